@@ -56,6 +56,7 @@ _resolved = {}
 
 def do_call(spec):
     core.use_tree()
+    core.set_today(spec.get('clock'))
     try:
         fn = _resolved.get((spec['m'], spec['f'])) or resolve(spec['m'], spec['f'])
     except Exception as e:  # noqa: B902
@@ -237,6 +238,11 @@ def run_machine(job):
 
 def main():
     job = json.load(sys.stdin)
+    # this interpreter exists for one job only: replace the date classes of the datetime module itself (before any stdnum
+    # module is imported) so that a "today" read at import time also sees the harness clock
+    import datetime
+    datetime.date = core.FrozenDate
+    datetime.datetime = core.FrozenDateTime
     if job.get('clock'):
         core.set_today(job['clock'])
     if job['mode'] == 'seq':
